@@ -159,6 +159,13 @@ func (a *AMF) fail(key, format string, args ...any) {
 }
 func (a *AMF) observe(k string) { a.Observ[k]++ }
 
+// NViolations is safe to call from another goroutine than the one feeding HandleUplink.
+func (a *AMF) NViolations() int {
+	a.mu.Lock()
+	defer a.mu.Unlock()
+	return len(a.Violations)
+}
+
 // ---------------------------------------------------------------- transport with fault plan
 
 func (a *AMF) down(ue int64, name string, tag string, pdu ngapType.NGAPPDU, nasName string, sht int, count int64) {
